@@ -81,8 +81,10 @@ var c10Types = []c10Type{
 	{"StringLongLinkedMap", 1, func(int) interface{} { return hmap.NewStringLongLinkedMap() }, false},
 	{"StringSet", 1, func(int) interface{} { return hmap.NewStringSet() }, false},
 	{"LinkedList", 1, func(int) interface{} { return list.NewLinkedList() }, false},
-	{"RequestQueue", 3, func(v int) interface{} { return queue.NewRequestQueue([]int{0, 2, 3}[v]) }, false},
-	{"RequestDoubleQueue", 3, func(v int) interface{} { return queue.NewRequestDoubleQueue([]int{0, 2, 3}[v], []int{0, 1, 3}[v]) }, false},
+	{"RequestQueue", 4, func(v int) interface{} { return queue.NewRequestQueue([]int{0, 2, 3, 1}[v]) }, false},
+	{"RequestDoubleQueue", 4, func(v int) interface{} {
+		return queue.NewRequestDoubleQueue([]int{0, 2, 3, 1}[v], []int{0, 1, 3, 1}[v])
+	}, false},
 }
 
 // point operations of the statement and their close variants, by method name
